@@ -1064,6 +1064,9 @@ def from_residual(I, st, depth, callee, args, body, ln):
 
 
 TABLE.update({
+    "core::cmp::Ord::cmp": ignore_top,
+    "core::cmp::PartialOrd::partial_cmp": ignore_top,
+    "core::hash::Hash::hash": ignore_unit,
     "alloc::boxed::Box::<T>::new_uninit": box_new_uninit,
     "alloc::boxed::Box::<T>::new": box_new,
     "alloc::boxed::box_assume_init_into_vec_unsafe": box_into_vec,
